@@ -139,7 +139,7 @@ def run(ck):
     rnd = random.Random(ck.seed)
     scale = 1 if ck.tier == "quick" else 20
     ok, what = G.probe_bytes_offset_fetch()
-    ck.finding("F-C07-3", not ok, "send_offset_fetch_request with a bytes group name: the request is never sent (TypeError from the encoder, client.py:765 does not coerce the group)",
+    ck.finding("F-C07-3", not ok, "send_offset_fetch_request with a bytes group name: the request is never sent (TypeError from the encoder: the group was not coerced to text)",
                dict(what, replay_op="history", monitor=PID))
 
     def run_batch(label, hists):
